@@ -65,7 +65,7 @@ ETol == RO                  \* first and second kind, Jacobi functions, Carlson 
 \* third kind (Pi, G, H): full accuracy is demanded for moderate parameters; for near-singular or large parameters
 \* the R_J based forms lose digits and the documentation gives no bound: a coarse anchor (2^-31) of the definition
 Coarse == 4194304
-Moderate(r) == r.kp2e >= -10 /\ r.ap2e >= -10 /\ r.a2e <= 3 /\ r.k2e <= 3
+Moderate(r) == r.kp2e >= -10 /\ r.ap2e >= -10 /\ r.a2e <= 1 /\ r.k2e <= 1
 E3Tol(r) == IF Moderate(r) THEN 2 * RO ELSE Coarse
 K1(r) == r.kp2e = -9999       \* k2 = 1
 A1(r) == r.ap2e = -9999       \* alpha2 = 1
